@@ -479,3 +479,293 @@ Section Equiv.
     intros o Ho. apply filter_In in Ho. apply Hso. tauto.
   Qed.
 End Equiv.
+
+(* ------------------------------------------------------------------ shapes determine lengths and widths *)
+Lemma class_width_cclass e c : class_width e (cclass c) = cp_width e c.
+Proof.
+  unfold class_width, cclass. destruct (is_ws c || is_ctl c).
+  - replace (16 + c <? 16) with false by (symmetry; apply N.ltb_ge; lia).
+    replace (16 + c - 16) with c by lia. reflexivity.
+  - unfold u8w, cp_width.
+    destruct e; destruct (c <? 128) eqn:E1, (c <? 2048) eqn:E2, (c <? 65536) eqn:E3; try reflexivity; lia.
+Qed.
+
+Lemma str_width_classes e s : fold_right (fun k a => class_width e k + a) 0 (map cclass s) = str_width e s.
+Proof.
+  induction s as [|c s IH]; [reflexivity|]. cbn [map fold_right str_width]. rewrite IH, class_width_cclass. reflexivity.
+Qed.
+
+Lemma last_map_some {A B} (g : A -> B) r :
+  last (map Some (map g r)) None = option_map g (last (map Some r) None).
+Proof.
+  induction r as [|a t IH]; [reflexivity|]. destruct t as [|b u]; [reflexivity|].
+  change (last (map Some (map g (a :: b :: u))) None) with (last (map Some (map g (b :: u))) None).
+  change (last (map Some (a :: b :: u)) None) with (last (map Some (b :: u)) None). exact IH.
+Qed.
+
+Lemma rs_width_rshape e ids r : rs_width e (rshape ids r) = elem_w e OText r.
+Proof.
+  unfold rs_width, elem_w, elem_text, winner, rshape. rewrite last_map_some.
+  destruct (last (map Some r) None) as [[id v]|]; cbn [option_map].
+  - destruct v as [s|z|t]; unfold vshape; cbn [snd fst].
+    + destruct s; try (destruct e; reflexivity). cbn [sshape]. apply str_width_classes.
+    + destruct e; reflexivity.
+    + destruct t; destruct e; reflexivity.
+  - destruct e; reflexivity.
+Qed.
+
+Definition oobs_wf (o : oobs) : Prop :=
+  match oo_entries o with EM _ => is_seq_type (oo_type o) = false | EL _ => is_seq_type (oo_type o) = true end.
+
+Lemma length_isort {A} (cmp : A -> A -> comparison) l : length (isort cmp l) = length l.
+Proof. symmetry. apply Permutation_length, isort_perm. Qed.
+
+Lemma obj_width_shape e ids o : oobs_wf o -> sh_width e (oshape ids o) = obj_width e o.
+Proof.
+  unfold oobs_wf, sh_width, obj_width, oshape. cbn [fst snd].
+  destruct (oo_entries o) as [l|l]; destruct (oo_type o); cbn [is_seq_type]; intros H; try discriminate H; try reflexivity.
+  - rewrite map_length. reflexivity.
+  - induction l as [|r t IH]; [reflexivity|]. cbn [map fold_right]. rewrite IH, rs_width_rshape. reflexivity.
+Qed.
+
+Lemma obj_len_shape ids o : sh_len (oshape ids o) = obj_len o.
+Proof.
+  unfold sh_len, obj_len, oshape. cbn [snd]. destruct (oo_entries o).
+  - rewrite length_isort, map_length. reflexivity.
+  - rewrite map_length. reflexivity.
+Qed.
+
+Lemma observe_wf ops o : In o (observe ops) -> oobs_wf o.
+Proof.
+  unfold observe, observe_sorted. intros H. apply in_map_iff in H. destruct H as ([id t] & <- & _).
+  unfold observe_obj, oobs_wf. cbn [fst snd]. destruct (is_seq_type t) eqn:E; cbn [oo_entries oo_type]; exact E.
+Qed.
+
+Theorem shape_widths e ops :
+  map (obj_width e) (observe ops) = map (sh_width e) (shape (observe ops)).
+Proof.
+  unfold shape. rewrite map_map. apply map_ext_in'. intros o Ho. symmetry. apply obj_width_shape.
+  eapply observe_wf, Ho.
+Qed.
+
+Theorem shape_lens ops : map obj_len (observe ops) = map sh_len (shape (observe ops)).
+Proof. unfold shape. rewrite map_map. apply map_ext. intros o. symmetry. apply obj_len_shape. Qed.
+
+Theorem shape_types ops : map oo_type (observe ops) = map fst (shape (observe ops)).
+Proof. unfold shape. rewrite map_map. apply map_ext. intros o. reflexivity. Qed.
+
+(* ------------------------------------------------------------------ from actors to op ids *)
+Lemma wf_ids_b_sound ops : wf_ids_b ops = true -> wf_ids ops.
+Proof.
+  unfold wf_ids_b, wf_ids. rewrite andb_true_iff, !forallb_forall. intros [H1 H2]. split.
+  - intros x Hx. specialize (H1 x Hx). apply orb_true_iff in H1. destruct H1 as [H1|H1].
+    + left. apply opid_eqb_spec, H1.
+    + right. lia.
+  - intros o Ho. specialize (H2 o Ho). lia.
+Qed.
+
+Lemma rn_id_nonroot R x : 1 <= fst x -> rn_id R x = (fst x, r_actor R (snd x)).
+Proof.
+  intros H. unfold rn_id. destruct (opid_eqb x root_id) eqn:E; [|reflexivity].
+  apply opid_eqb_spec in E. subst x. cbn in H. lia.
+Qed.
+
+Lemma mono_of_actors R ops :
+  wf_ids ops ->
+  (forall a b, In a (map snd (ids_of ops)) -> In b (map snd (ids_of ops)) ->
+     bytes_cmp (r_actor R a) (r_actor R b) = bytes_cmp a b) ->
+  forall x y, In x (ids_of ops) -> In y (ids_of ops) -> opid_cmp (rn_id R x) (rn_id R y) = opid_cmp x y.
+Proof.
+  intros [W _] Hact x y Hx Hy.
+  destruct (W x Hx) as [->|Wx], (W y Hy) as [->|Wy].
+  - reflexivity.
+  - rewrite (rn_id_nonroot R y Wy). change (rn_id R root_id) with root_id. unfold opid_cmp, root_id. cbn [fst snd].
+    assert (E : N.compare 0 (fst y) = Lt) by (apply N.compare_lt_iff; lia). rewrite E. reflexivity.
+  - rewrite (rn_id_nonroot R x Wx). change (rn_id R root_id) with root_id. unfold opid_cmp, root_id. cbn [fst snd].
+    assert (E : N.compare (fst x) 0 = Gt) by (apply N.compare_gt_iff; lia). rewrite E. reflexivity.
+  - rewrite (rn_id_nonroot R x Wx), (rn_id_nonroot R y Wy). unfold opid_cmp. cbn [fst snd].
+    destruct (N.compare (fst x) (fst y)); try reflexivity.
+    apply Hact; apply in_map; assumption.
+Qed.
+
+(* ------------------------------------------------------------------ histories: graph, clocks, reads at heads *)
+Section Hist.
+  Variable R : renaming.
+  Notation fa := (r_actor R).
+  Notation fh := (r_hash R).
+  Notation rc := (rn_change R).
+  Variable AD : actor -> Prop.
+  Variable HD : N -> Prop.
+  Hypothesis Hact : forall a b, AD a -> AD b -> bytes_cmp (fa a) (fa b) = bytes_cmp a b.
+  Hypothesis Hhash : forall x y, HD x -> HD y -> fh x = fh y -> x = y.
+
+  Lemma same_actor_rn a b : AD a -> AD b -> same_actor (fa a) (fa b) = same_actor a b.
+  Proof.
+    intros Ha Hb. unfold same_actor.
+    destruct (nlist_eqb a b) eqn:E.
+    - apply nlist_eqb_eq in E. subst. apply nlist_eqb_eq. reflexivity.
+    - destruct (nlist_eqb (fa a) (fa b)) eqn:E2; [|reflexivity].
+      apply nlist_eqb_eq in E2. pose proof (Hact a b Ha Hb) as C. rewrite E2 in C.
+      rewrite (cmp_refl bytes_cmp bytes_cmp_total) in C. symmetry in C.
+      apply (cmp_eq bytes_cmp_total) in C. subst.
+      rewrite (proj2 (nlist_eqb_eq b b) eq_refl) in E. discriminate.
+  Qed.
+
+  Lemma hash_eqb_rn x y : HD x -> HD y -> N.eqb (fh x) (fh y) = N.eqb x y.
+  Proof.
+    intros Hx Hy. destruct (N.eqb x y) eqn:E.
+    - apply N.eqb_eq in E. subst. apply N.eqb_refl.
+    - destruct (N.eqb (fh x) (fh y)) eqn:E2; [|reflexivity].
+      apply N.eqb_eq in E2. apply Hhash in E2; [|assumption|assumption]. subst. rewrite N.eqb_refl in E. discriminate.
+  Qed.
+
+  Lemma clock_get_rn k a : (forall b, In b (map fst k) -> AD b) -> AD a ->
+    clock_get (rn_clock R k) (fa a) = clock_get k a.
+  Proof.
+    induction k as [|[b n] t IH]; cbn [rn_clock map clock_get fst snd]; intros Hk Ha; [reflexivity|].
+    rewrite same_actor_rn by (first [exact Ha|apply Hk; left; reflexivity]).
+    destruct (same_actor a b); [reflexivity|]. apply IH; [|exact Ha]. intros c Hc. apply Hk. right. exact Hc.
+  Qed.
+
+  Lemma clock_set_rn k a n : (forall b, In b (map fst k) -> AD b) -> AD a ->
+    clock_set (rn_clock R k) (fa a) n = rn_clock R (clock_set k a n).
+  Proof.
+    induction k as [|[b m] t IH]; cbn [rn_clock map clock_set fst snd]; intros Hk Ha; [reflexivity|].
+    rewrite same_actor_rn by (first [exact Ha|apply Hk; left; reflexivity]).
+    destruct (same_actor a b); cbn [map fst snd]; [reflexivity|].
+    f_equal. apply IH; [|exact Ha]. intros c Hc. apply Hk. right. exact Hc.
+  Qed.
+
+  Lemma in_clock_set k a n b : In b (map fst (clock_set k a n)) -> b = a \/ In b (map fst k).
+  Proof.
+    induction k as [|[c m] t IH]; cbn [clock_set map fst In]; [intuition|].
+    destruct (same_actor a c); cbn [map fst In]; intuition.
+  Qed.
+
+  Lemma max_op_rn c : max_op (rc c) = max_op c.
+  Proof. unfold max_op. cbn [rn_change ch_start ch_ops]. rewrite map_length. reflexivity. Qed.
+
+  Lemma clock_of_rn cs : (forall c, In c cs -> AD (ch_actor c)) ->
+    clock_of (map rc cs) = rn_clock R (clock_of cs) /\ (forall b, In b (map fst (clock_of cs)) -> AD b).
+  Proof.
+    unfold clock_of. intros Hcs.
+    assert (Gn : forall l k, (forall c, In c l -> AD (ch_actor c)) -> (forall b, In b (map fst k) -> AD b) ->
+      fold_left (fun k c => clock_set k (ch_actor c) (max_op c)) (map rc l) (rn_clock R k)
+      = rn_clock R (fold_left (fun k c => clock_set k (ch_actor c) (max_op c)) l k)
+      /\ (forall b, In b (map fst (fold_left (fun k c => clock_set k (ch_actor c) (max_op c)) l k)) -> AD b)).
+    { induction l as [|c t IH]; cbn [map fold_left]; intros k Hl Hk; [split; [reflexivity|exact Hk]|].
+      rewrite max_op_rn. cbn [rn_change ch_actor].
+      rewrite clock_set_rn by (first [exact Hk|apply Hl; left; reflexivity]).
+      apply IH; [intros x Hx; apply Hl; right; exact Hx|].
+      intros b Hb. apply in_clock_set in Hb. destruct Hb as [->|Hb]; [apply Hl; left; reflexivity|apply Hk, Hb]. }
+    apply (Gn cs []); [exact Hcs|intros b []].
+  Qed.
+
+  Lemma all_ops_rn appl : all_ops (map rc appl) = map (rn_op R) (all_ops appl).
+  Proof.
+    unfold all_ops. rewrite flat_map_map', map_flat_map'. apply flat_map_ext_in'. intros c _. reflexivity.
+  Qed.
+
+  Lemma anc_rev_rn l : forall want,
+    (forall c, In c l -> HD (ch_hash c) /\ forall d, In d (ch_deps c) -> HD d) ->
+    (forall h, In h want -> HD h) ->
+    anc_rev (map rc l) (map fh want) = map rc (anc_rev l want).
+  Proof.
+    induction l as [|c t IH]; intros want Hl Hw; [reflexivity|].
+    cbn [map anc_rev]. cbn [rn_change ch_hash ch_deps].
+    assert (Hc : HD (ch_hash c)) by (apply Hl; left; reflexivity).
+    rewrite (memb_map_in N.eqb N.eqb fh (ch_hash c) want) by (intros y Hy; apply hash_eqb_rn; [exact Hc|apply Hw, Hy]).
+    assert (Ht : forall c0, In c0 t -> HD (ch_hash c0) /\ (forall d, In d (ch_deps c0) -> HD d))
+      by (intros c0 H0; apply Hl; right; exact H0).
+    destruct (memb N.eqb (ch_hash c) want).
+    - cbn [map]. f_equal. rewrite <- map_app. apply IH; [exact Ht|].
+      intros h Hh. apply in_app_or in Hh. destruct Hh as [Hh|Hh]; [|apply Hw, Hh].
+      apply (proj2 (Hl c (or_introl eq_refl))), Hh.
+    - apply IH; assumption.
+  Qed.
+
+  Lemma ancestors_rn appl hs :
+    (forall c, In c appl -> HD (ch_hash c) /\ forall d, In d (ch_deps c) -> HD d) ->
+    (forall h, In h hs -> HD h) ->
+    ancestors (map rc appl) (map fh hs) = map rc (ancestors appl hs).
+  Proof.
+    intros Ha Hh. unfold ancestors. rewrite <- map_rev, anc_rev_rn, map_rev; [reflexivity| |exact Hh].
+    intros c Hc. apply Ha. apply in_rev. exact Hc.
+  Qed.
+
+  Lemma hashes_rn appl : hashes (map rc appl) = map fh (hashes appl).
+  Proof. unfold hashes. rewrite !map_map. reflexivity. Qed.
+
+  Theorem heads_rn appl :
+    (forall c, In c appl -> HD (ch_hash c) /\ forall d, In d (ch_deps c) -> HD d) ->
+    heads_of (map rc appl) = sortN (map fh (heads_of appl)).
+  Proof.
+    intros Ha. unfold heads_of. rewrite hashes_rn.
+    rewrite (filter_map_in (fun h => negb (existsb (fun c => memb N.eqb h (ch_deps c)) appl))
+                           (fun h => negb (existsb (fun c => memb N.eqb h (ch_deps c)) (map rc appl))) fh (hashes appl)).
+    - unfold sortN. apply (isort_perm_eq N.compare N_cmp_total). apply Permutation_map, isort_perm.
+    - intros h Hh. f_equal. rewrite existsb_map'. apply existsb_ext_in'. intros c Hc.
+      cbn [rn_change ch_deps]. apply memb_map_in. intros d Hd. apply hash_eqb_rn.
+      + unfold hashes in Hh. apply in_map_iff in Hh. destruct Hh as (c' & <- & Hc'). apply Ha, Hc'.
+      + apply (proj2 (Ha c Hc)), Hd.
+  Qed.
+End Hist.
+
+Record good_hist (R : renaming) (appl : list change) (hs : list N) : Prop := {
+  h_wf : wf_ids (all_ops appl);
+  h_act : forall a b, In a (hist_actors appl) -> In b (hist_actors appl) ->
+          bytes_cmp (r_actor R a) (r_actor R b) = bytes_cmp a b;
+  h_hash : forall x y, In x (hist_hashes appl hs) -> In y (hist_hashes appl hs) -> r_hash R x = r_hash R y -> x = y;
+  h_kinj : forall k1 k2, In k1 (map_keys (all_ops appl)) -> In k2 (map_keys (all_ops appl)) ->
+           r_key R k1 = r_key R k2 -> k1 = k2;
+  h_kshape : forall k, In k (map_keys (all_ops appl)) -> map kclass (r_key R k) = map kclass k;
+  h_val : forall o v, In o (all_ops appl) -> op_action o = APut v -> sshape (r_val R (op_id o) v) = sshape v }.
+
+Lemma good_hist_on R appl hs : good_hist R appl hs -> good_on R (all_ops appl).
+Proof.
+  intros H. split; [|apply (h_kinj _ _ _ H)|apply (h_kshape _ _ _ H)|apply (h_val _ _ _ H)].
+  apply mono_of_actors; [apply (h_wf _ _ _ H)|].
+  intros a b Ha Hb. apply (h_act _ _ _ H); unfold hist_actors; apply in_or_app; right; assumption.
+Qed.
+
+Lemma hist_hash_dom appl hs c : In c appl ->
+  In (ch_hash c) (hist_hashes appl hs) /\ forall d, In d (ch_deps c) -> In d (hist_hashes appl hs).
+Proof.
+  intros Hc. unfold hist_hashes. split.
+  - apply in_or_app. right. apply in_or_app. left. unfold hashes. apply in_map, Hc.
+  - intros d Hd. apply in_or_app. right. apply in_or_app. right. apply in_flat_map. exists c. split; assumption.
+Qed.
+
+Theorem shape_obs_at_rn R appl hs : good_hist R appl hs ->
+  shape (obs_at (rename R appl) (map (r_hash R) hs)) = shape (obs_at appl hs).
+Proof.
+  intros H. unfold obs_at, rename.
+  set (AD := fun a => In a (hist_actors appl)). set (HD := fun h => In h (hist_hashes appl hs)).
+  rewrite (ancestors_rn R HD (h_hash _ _ _ H) appl hs)
+    by (try (intros c Hc; apply hist_hash_dom, Hc); intros h Hh; unfold HD, hist_hashes; apply in_or_app; left; exact Hh).
+  assert (Hanc : forall c, In c (ancestors appl hs) -> AD (ch_actor c)).
+  { intros c Hc. unfold AD, hist_actors. apply in_or_app. left. apply in_map.
+    unfold ancestors in Hc. apply in_rev in Hc.
+    assert (Gn : forall l want x, In x (anc_rev l want) -> In x l).
+    { induction l as [|y t IH]; cbn [anc_rev]; intros want x Hx; [exact Hx|].
+      destruct (memb N.eqb (ch_hash y) want); [destruct Hx as [->|Hx]; [left; reflexivity|right; eapply IH, Hx]|right; eapply IH, Hx]. }
+    apply Gn in Hc. apply in_rev in Hc. exact Hc. }
+  destruct (clock_of_rn R AD (h_act _ _ _ H) (ancestors appl hs) Hanc) as [Ek Hk].
+  rewrite Ek, all_ops_rn.
+  rewrite (filter_map_in (fun o => covered (clock_of (ancestors appl hs)) (op_id o))
+                         (fun o => covered (rn_clock R (clock_of (ancestors appl hs))) (op_id o))
+                         (rn_op R) (all_ops appl)).
+  - apply (shape_observe_rn R (all_ops appl) (good_hist_on R appl hs H)).
+    intros o Ho. apply filter_In in Ho. tauto.
+  - intros o Ho. cbn [rn_op op_id]. destruct (h_wf _ _ _ H) as [_ W].
+    rewrite (rn_id_nonroot R (op_id o) (W o Ho)). unfold covered. cbn [fst snd].
+    rewrite (clock_get_rn R AD (h_act _ _ _ H)); [reflexivity|exact Hk|].
+    unfold AD, hist_actors. apply in_or_app. right. apply in_map, in_ids_id, Ho.
+Qed.
+
+Theorem heads_rename R appl hs : good_hist R appl hs ->
+  heads_of (rename R appl) = sortN (map (r_hash R) (heads_of appl)).
+Proof.
+  intros H. unfold rename. apply (heads_rn R (fun h => In h (hist_hashes appl hs)) (h_hash _ _ _ H)).
+  intros c Hc. apply hist_hash_dom, Hc.
+Qed.
